@@ -355,7 +355,7 @@ fn pat_edge(name: &str, d: usize, i: usize, j: usize) -> bool {
 }
 
 impl EndToEnd {
-    fn decode(&self, id: u64) -> (usize, &'static str, usize, bool, bool, bool, usize) {
+    fn decode(&self, id: u64) -> (usize, &'static str, usize, bool, bool, bool, usize, usize) {
         let mut dg = Digits(id);
         let merge = dg.take(3) as usize;
         let compact = dg.take(2) == 1;
@@ -364,9 +364,12 @@ impl EndToEnd {
         let context = dg.take(3) as usize; // 0: PSD alone, 1: NN before (finite), 2: NN row with an infinite bound before
         let pat = *dg.pick(&PATTERNS);
         let d = *dg.pick(&self.dims);
-        (d, pat, merge, compact, complete, presolve, context)
+        // 0: A's entries cover the whole pattern; 1: A touches only part of it (every second anti-diagonal),
+        // so that some entries of the aggregate pattern are present in b alone
+        let amode = dg.take(2) as usize;
+        (d, pat, merge, compact, complete, presolve, context, amode)
     }
-    fn problem(d: usize, pat: &str, context: usize) -> Prob {
+    fn problem(d: usize, pat: &str, context: usize, amode: usize) -> Prob {
         // planted: slack S* sparse PD inside the pattern, dual Z* = I, x* = (1,-1,0.5)
         let n = 3;
         let mut cones = vec![];
@@ -384,7 +387,7 @@ impl EndToEnd {
         for c in 0..n {
             for j in 0..d {
                 for i in 0..=j {
-                    if pat_edge(pat, d, i, j) && (i + 2 * j + c) % 3 == 0 {
+                    if pat_edge(pat, d, i, j) && (i + 2 * j + c) % 3 == 0 && (amode == 0 || (i + j) % 2 == 0) {
                         let v = 1.0 + ((i + j + c) % 4) as f64 * 0.5;
                         a.set(rows0 + tri(i, j), c, if i == j { v } else { v * SQRT2 * 0.5 });
                     }
@@ -433,19 +436,19 @@ impl Space for EndToEnd {
         format!("end-to-end-dims{:?}", self.dims)
     }
     fn size(&self) -> u64 {
-        3 * 2 * 2 * 2 * 3 * PATTERNS.len() as u64 * self.dims.len() as u64
+        3 * 2 * 2 * 2 * 3 * PATTERNS.len() as u64 * self.dims.len() as u64 * 2
     }
     fn describe(&self, id: u64) -> Value {
-        let (d, pat, merge, compact, complete, presolve, context) = self.decode(id);
+        let (d, pat, merge, compact, complete, presolve, context, amode) = self.decode(id);
         json!({"psd_dim": d, "pattern": pat, "merge_method": MERGES[merge], "compact": compact, "complete_dual": complete, "presolve_enable": presolve,
-               "context": (["PSD alone", "NN(2) before", "NN(2) before with an infinite bound"][context]), "problem": Self::problem(d, pat, context).to_json()})
+               "a_entries": (["whole pattern", "part of the pattern (rest in b alone)"][amode]), "context": (["PSD alone", "NN(2) before", "NN(2) before with an infinite bound"][context]), "problem": Self::problem(d, pat, context, amode).to_json()})
     }
     fn bound(&self) -> Value {
-        json!({"dims": self.dims, "patterns": PATTERNS, "settings_combinations": 24, "contexts": 3})
+        json!({"dims": self.dims, "patterns": PATTERNS, "settings_combinations": 24, "contexts": 3, "a_coverage": 2})
     }
     fn run(&self, id: u64, ctx: &mut Ctx) -> CaseResult {
-        let (d, pat, merge, compact, complete, presolve, context) = self.decode(id);
-        let p = Self::problem(d, pat, context);
+        let (d, pat, merge, compact, complete, presolve, context, amode) = self.decode(id);
+        let p = Self::problem(d, pat, context, amode);
         let mut ss = SettingsSpec { presolve_enable: presolve, ..Default::default() };
         // decomposition off: the reference
         ss.chordal = false;
